@@ -37,6 +37,7 @@ type c11Obj struct {
 	Tags  string
 	Count int
 	Score float64
+	Stamp int64
 }
 
 const c11SharedScript = `
@@ -56,7 +57,8 @@ last = clean;
 function weight(c, s) { local w; w = c * 2; if (s > 0.5) { w = w + 1; } return w; }
 w = weight(Count, Score);
 ratio = 100 / Div;
-return (w > 6 && Name ~= /e/) || (len(parts) > 2 && between(Count, 2, 4)) || Kind == "other";
+stamp = string(year(Stamp)) + "-" + string(month(Stamp)) + "-" + string(day(Stamp)) + " " + string(hour(Stamp)) + " " + weekday(Stamp);
+return (w > 6 && Name ~= /e/) || (len(parts) > 2 && between(Count, 2, 4)) || Kind == "other" || hour(Stamp) == 3 || weekday(Stamp) == "Monday";
 `
 
 func c11MakeObj(r *rand.Rand, id int) c11Obj {
@@ -67,7 +69,7 @@ func c11MakeObj(r *rand.Rand, id int) c11Obj {
 	if r.Intn(8) == 0 {
 		div = 0 // this run ends with a division-by-zero error (after its counter update)
 	}
-	return c11Obj{Div: div, Id: id, Name: names[r.Intn(len(names))], Kind: kinds[r.Intn(len(kinds))], Tags: tags[r.Intn(len(tags))], Count: r.Intn(7), Score: r.Float64()}
+	return c11Obj{Div: div, Id: id, Name: names[r.Intn(len(names))], Kind: kinds[r.Intn(len(kinds))], Tags: tags[r.Intn(len(tags))], Count: r.Intn(7), Score: r.Float64(), Stamp: r.Int63n(4102444800)}
 }
 
 type c11Result struct {
@@ -108,27 +110,41 @@ func c11Worker(args []string) {
 		} else {
 			runtime.GOMAXPROCS(runtime.NumCPU())
 		}
+		// the time built-ins follow $TZ: a different zone each round, set while nothing runs
+		zone := []string{"", "Europe/Helsinki", "America/New_York", "Asia/Kolkata", "UTC", "Australia/Lord_Howe"}[round%6]
+		os.Setenv("TZ", zone)
+		loc := time.UTC
+		if zone != "" {
+			if l, err := time.LoadLocation(zone); err == nil {
+				loc = l
+			}
+		}
 		N := G * runsEach
 		objs := make([]c11Obj, N)
 		for i := range objs {
 			objs[i] = c11MakeObj(r, i)
 		}
-		// sequential reference verdicts (fresh evaluator, one at a time)
-		refE := evalfilter.New(c11SharedScript)
-		refE.AddFunction("note", func(a []object.Object) object.Object { return &object.Void{} })
-		refE.SetVariable("n", &object.Integer{Value: 0})
-		if err := refE.Prepare(); err != nil {
-			res.Errors = append(res.Errors, "prepare: "+err.Error())
-			break
-		}
+		// sequential reference verdicts (fresh evaluator, one at a time) - taken after the
+		// concurrent phase, so that the first use of anything zone- or pattern-dependent
+		// in a round happens under concurrency
 		ref := make([]bool, N)
 		refErr := make([]bool, N)
-		for i := range objs {
-			b, err := refE.Run(objs[i])
-			if (err != nil) != (objs[i].Div == 0) {
-				res.Errors = append(res.Errors, fmt.Sprintf("sequential run of %+v: err=%v", objs[i], err))
+		sequentialReference := func() bool {
+			refE := evalfilter.New(c11SharedScript)
+			refE.AddFunction("note", func(a []object.Object) object.Object { return &object.Void{} })
+			refE.SetVariable("n", &object.Integer{Value: 0})
+			if err := refE.Prepare(); err != nil {
+				res.Errors = append(res.Errors, "prepare: "+err.Error())
+				return false
 			}
-			ref[i], refErr[i] = b, err != nil
+			for i := range objs {
+				b, err := refE.Run(objs[i])
+				if (err != nil) != (objs[i].Div == 0) {
+					res.Errors = append(res.Errors, fmt.Sprintf("sequential run of %+v: err=%v", objs[i], err))
+				}
+				ref[i], refErr[i] = b, err != nil
+			}
+			return true
 		}
 		// shared evaluator
 		type noteRec struct {
@@ -202,6 +218,13 @@ func c11Worker(args []string) {
 						bad := fmt.Sprintf("(w%d_%d_%d[", g, k, rr.Intn(1000000))
 						script = fmt.Sprintf("c = c + 1; if (match(Word, \"%s\") || replace(Word, \"%s\", \"x\") == true) { return 0 - c; } return c;", bad, bad)
 					}
+					if k%5 == 3 {
+						// time built-ins against Go's own calendar arithmetic in this round's zone
+						ts := rr.Int63n(4102444800)
+						tm := time.Unix(ts, 0).In(loc)
+						script = fmt.Sprintf("c = c + 1; if (hour(%d) == %d && minute(%d) == %d && seconds(%d) == %d && day(%d) == %d && month(%d) == %d && year(%d) == %d && weekday(%d) == \"%s\" && now() > 0) { return c; } return 0 - c;",
+							ts, tm.Hour(), ts, tm.Minute(), ts, tm.Second(), ts, tm.Day(), ts, int(tm.Month()), ts, tm.Year(), ts, tm.Weekday().String())
+					}
 					e := evalfilter.New(script)
 					e.SetVariable("c", &object.Integer{Value: 0})
 					if err := e.Prepare(); err != nil {
@@ -236,6 +259,9 @@ func c11Worker(args []string) {
 		wg.Wait()
 		close(stopOwn)
 		wgOwn.Wait()
+		if !sequentialReference() {
+			break
+		}
 		res.SharedRuns += N
 		res.OwnRuns += int(ownRuns)
 		for g := range ownMismatch {
